@@ -9,6 +9,7 @@ import Driver.Cli
 import Driver.BitW
 import Driver.FSEEnc
 import Driver.HufEnc
+import Driver.LitEnc
 
 def main (args : List String) : IO UInt32 := do
   match args with
@@ -23,4 +24,5 @@ def main (args : List String) : IO UInt32 := do
   | ["bitw"] => Driver.BitW.main; return 0
   | ["fseenc"] => Driver.FSEEnc.main; return 0
   | ["hufenc"] => Driver.HufEnc.main; return 0
+  | ["litenc"] => Driver.LitEnc.main; return 0
   | _ => IO.eprintln "usage: zvdriver <model>"; return 2
